@@ -12,6 +12,14 @@ if REPO != "/repo":
     gm = re.sub(r"(github.com/echovault/sugardb => )\S+", r"\g<1>" + REPO, gm)
     open(os.path.join(V, "go.mod"), "w").write(gm)
 flt = sys.argv[1] if len(sys.argv) > 1 else ""
+only = set(filter(None, os.environ.get("MATRIX_NAMES", "").split(",")))  # exact names; results merged into the existing file
+if os.environ.get("MATRIX_MISSING"):
+    # every change that the existing MATRIX.json does not list as detected (new, ported or missed ones)
+    try:
+        old = json.load(open(os.path.join(V, "seeded", "MATRIX.json")))["results"]
+    except Exception:
+        old = {}
+    only = {os.path.basename(d) for d in glob.glob(os.path.join(V, "seeded", "*")) if os.path.isdir(d) and not old.get(os.path.basename(d), {}).get("detected")}
 env = dict(os.environ, GOFLAGS="-mod=mod", GOPROXY="off", GOSUMDB="off")
 def sh(cmd, cwd=V, timeout=3600):
     p = subprocess.run(cmd, shell=True, cwd=cwd, env=env, capture_output=True, text=True, timeout=timeout)
@@ -20,11 +28,11 @@ rc, o = sh("git -C %s status --porcelain" % REPO)
 assert o.strip() == "", REPO + " is not clean:\n" + o
 res = {}
 mp = os.path.join(V, "seeded", "MATRIX.json")
-if flt and os.path.exists(mp):
+if (flt or only) and os.path.exists(mp):
     res = json.load(open(mp)).get("results", {})
 for d in sorted(glob.glob(os.path.join(V, "seeded", "*"))):
     name = os.path.basename(d)
-    if not os.path.isdir(d) or flt not in name:
+    if not os.path.isdir(d) or flt not in name or (only and name not in only):
         continue
     prop = name.split("-")[0]
     patch = os.path.join(d, "patch.diff")
